@@ -5,6 +5,12 @@ HERE = os.path.dirname(os.path.dirname(os.path.abspath(__file__)))
 
 # id -> (technique, level text, level note, design ref)
 CHECKS = {
+ "C16": ("model-based testing against a per-machine-cycle DMA model on a twin bus + metamorphic batching invariance: exhaustive over source pages and completion instants, proptest histories with shrinking",
+         "All 256 source pages are transferred in one and in split batches, with a source byte changed after k machine cycles for k around 0, 79 and 158-161; generated histories of start/advance/write operations (writes biased around the copy position, onto bank registers, OAM and 0xFF46) are compared after every operation with models::dma driving a twin machine (OAM and the whole remaining state), and every advance is re-delivered in pieces to a third instance.",
+         "trusted: models::dma; memory behind the bus is the repository's on both sides; OAM bytes copied from live I/O registers and frame buffers are not compared", "DESIGN.md §5 C16"),
+ "C17": ("exhaustive enumeration of the joypad transition relation against a matrix model + proptest histories through the bus",
+         "All 256 button states x 4 selections x 20 single actions are reached through the public API on the Joypad device and through the bus (0xFF00, catch-up, IF bit 4); P1 bits 0-5, the interrupt request and its being reported once are compared with models::joypad. Complete for the transition relation; generated histories add several actions between catch-ups and arbitrary P1 bytes.",
+         "trusted: models::joypad; P1 bits 6-7 not compared", "DESIGN.md §5 C17"),
  "C14": ("model-based testing against a closed-form LCD schedule + metamorphic batching invariance: exhaustive 4-clock walk over two frames per enable mask/LYC, proptest histories with shrinking",
          "For all 16 STAT enable masks x 7 LYC values two frames are delivered 4 clocks at a time and LY, mode, coincidence bit, VBlank and STAT requests of every slot are compared with models::lcd; generated histories of STAT/LYC writes and advances (4 to 200000 clocks, biased to line/mode/frame boundaries) are run on the VideoState device and through the bus, with every advance re-delivered in pieces to a second instance that must observe the same.",
          "trusted: models::lcd; STAT requests caused by register writes are not asserted; STAT-line blocking not modelled; batches are multiples of 4", "DESIGN.md §5 C14"),
